@@ -1,10 +1,142 @@
-(* C19 -- placeholder while the pipeline is brought up; replaced by the real theorem list. *)
-From Coq Require Import List NArith QArith Bool.
-From Gatery Require Import SimProcDefs.
+(* C19 -- Simulation processes run deterministically in the documented phase order.
+   Model: SimProcDefs.v (transcription of ReferenceSimulator.cpp / SimulationProcess.h scheduling, tied to
+   the real simulator by checks/C19.py on every run), FiberDefs.v (thread hand-off of SimulationFiber.cpp).
+   Proofs: SimProcOrder.v SimProcSteps.v SimProcInv1.v SimProcInv2.v SimProcExamples.v FiberProofs.v.
 
-Theorem ev_less_irrefl : forall e, ev_less e e = false.
+   Quantifiers: every clock configuration [cfg] (one or two clocks, any frequencies), every set of process
+   scripts and fork targets, coroutine or fiber mode, every tie-break stream [tb] (the order in which
+   std::priority_queue yields equivalent clockPinTrigger events), every fuel, every run length; for the fiber
+   protocol every interleaving of the two threads including spurious wake-ups.
+   "Reachable" = reachable in the small-step semantics of SimProcSteps.v, which contains every state the
+   interpreter [run] passes through (interpreter_states_reachable). *)
+From Coq Require Import List NArith ZArith QArith Bool.
+From Gatery Require Import SimProcDefs SimProcOrder SimProcSteps SimProcInv1 SimProcInv2 SimProcExamples FiberDefs FiberProofs.
+Import ListNotations.
+Local Close Scope Q_scope.
+
+(* ---------------------------------------------------------------- Event::operator< *)
+
+(* [klt a b]: a is served strictly before b, i.e. `b < a` of Event::operator< (ev_less_klt).
+   The order is a strict weak order ... *)
+Theorem event_order_strict_weak :
+  (forall a b, ev_less b a = true <-> klt a b) /\
+  (forall a, ~ klt a a) /\ (forall a b c, klt a b -> klt b c -> klt a c) /\
+  (forall a b c, incomparable a b -> incomparable b c -> incomparable a c).
+Proof. exact (conj ev_less_klt (conj klt_irrefl (conj klt_trans incomparable_trans))). Qed.
+Print Assumptions event_order_strict_weak.
+
+(* ... total on process resumptions with different insertion ids, where within one instant
+   (time, phase, micro tick) it is the order of the insertion ids ... *)
+Theorem event_order_total_on_resumptions : forall a b,
+  e_type a = SimProcResume -> e_type b = SimProcResume -> e_id a <> e_id b ->
+  (klt a b \/ klt b a) /\ (stamp_eq a b -> (klt a b <-> (e_id a < e_id b)%N)).
 Proof.
-  intro e. unfold ev_less, clock_more, clock_less.
-  rewrite !Z.ltb_irrefl, !N.ltb_irrefl. destruct (e_type e); reflexivity.
+  exact (fun a b Ra Rb Hne => conj (klt_total_resume a b Ra Rb Hne) (klt_same_instant_resume a b Ra Rb)).
 Qed.
-Print Assumptions ev_less_irrefl.
+Print Assumptions event_order_total_on_resumptions.
+Example event_order_total_on_resumptions_ex :
+  klt (resume_event 1 0 AFTER 0 3 WkStable (ghost0 0)) (resume_event 1 0 AFTER 1 5 WkStable (ghost0 0)).
+Proof. apply klt_same_instant_resume; try reflexivity; repeat split; reflexivity. Qed.
+
+(* ... but NOT a strict total order on all events: the clockPinTrigger events of two different clock pins
+   with the same time are distinct and incomparable (std::priority_queue may yield either first). *)
+Theorem event_order_total_refuted : forall t,
+  incomparable (trigger_event t CA) (trigger_event t CB) /\ trigger_event t CA <> trigger_event t CB.
+Proof. exact triggers_incomparable. Qed.
+Print Assumptions event_order_total_refuted.
+
+(* ---------------------------------------------------------------- the interpreter and the small-step semantics *)
+
+Theorem interpreter_states_reachable : forall cfg procs fiber until tb fuel,
+  exists stk, treach cfg (boot cfg procs fiber tb, []) (run cfg procs fiber until tb fuel, stk).
+Proof. exact run_reachable. Qed.
+Print Assumptions interpreter_states_reachable.
+
+(* ---------------------------------------------------------------- same-instant FIFO *)
+
+(* In every reachable state the queue is sorted; two queued resumptions of the same instant stand in the
+   order of their insertion ids (ids are taken from one counter at suspension: SimProcInv1.bk_change), and
+   what pop() yields is never preceded by anything left in the queue: it is the head, or the second element if
+   the first two are equivalent clockPinTrigger events.  Hence processes whose resumptions are in the queue
+   together resume in the order in which they suspended. *)
+Theorem same_instant_fifo : forall cfg procs fiber tb s stk,
+  treach cfg (boot cfg procs fiber tb, []) (s, stk) ->
+  qsorted (s_queue s) /\
+  (forall l1 a l2 b l3, s_queue s = l1 ++ a :: l2 ++ b :: l3 ->
+     e_type a = SimProcResume -> e_type b = SimProcResume -> stamp_eq a b -> (e_id a < e_id b)%N) /\
+  (forall e s1, pop_event s = Some (e, s1) ->
+     (forall x, In x (s_queue s1) -> ~ klt x e) /\
+     (exists q, s_queue s = e :: q \/ exists e2 r, s_queue s = e2 :: e :: r /\ incomparable e2 e
+                                      /\ e_type e2 = ClockPinTrigger /\ e_type e = ClockPinTrigger)).
+Proof.
+  exact (fun cfg procs fiber tb s stk R =>
+           conj (reach_sorted cfg procs fiber tb (s, stk) R)
+                (conj (same_instant_fifo_proof cfg procs fiber tb s stk R)
+                      (fun e s1 P => pop_serves_first_proof cfg procs fiber tb s stk e s1 R P))).
+Qed.
+Print Assumptions same_instant_fifo.
+
+(* KNOWN FINDING (KNOWN_FINDINGS.txt cross-clock-before-fifo).  The full statement "processes that become
+   runnable at the same instant resume in the order in which they suspended" is FALSE for phase BEFORE on two
+   clocks with coincident edges: the BEFORE-phase waiters of the second clock enter the queue only after those
+   of the first clock have run.  Witness (two 1 Hz clocks; p0 waits on clock B, then p1 on clock A): the log of
+   the model -- which agrees with the real simulator on this script set (checks/C19.py) -- contains two
+   resumptions of the same (time, phase, micro tick) in the reverse order of their insertion ids. *)
+Theorem same_instant_fifo_cross_clock_before_refuted :
+  exists l1 e l2 e' l3 t ph mt i t' i',
+    res_log (simulate cfg_two_1hz procs_cross false 2 [] 2000) = l1 ++ e :: l2 ++ e' :: l3 /\
+    ev_wake e = Some (t, ph, mt, i) /\ ev_wake e' = Some (t', ph, mt, i') /\ (t == t')%Q /\ (i' < i)%N.
+Proof. exact (fifo_inverted_sound _ (proj1 cross_clock_before_inverted)). Qed.
+Print Assumptions same_instant_fifo_cross_clock_before_refuted.
+
+(* ---------------------------------------------------------------- WaitFor, WaitChange *)
+
+(* a process resumed from WaitFor(q) that suspended at time t0 runs at exactly t0 + q (in Q), in phase AFTER *)
+Theorem waitfor_exact : forall cfg procs fiber until tb fuel t ph mt ro pid q g,
+  In (LProc t ph mt ro pid (AWake (WkFor q) g)) (res_log (simulate cfg procs fiber until tb fuel)) ->
+  (t == g_t0 g + q)%Q /\ ph = AFTER.
+Proof. exact waitfor_exact_proof. Qed.
+Print Assumptions waitfor_exact.
+
+(* a process is resumed from WaitChange only with a snapshot (taken at suspension) and an observation (at the
+   check that scheduled the resumption) of the watched signals that differ; every firing of a watch differs *)
+Theorem waitchange_only_on_change : forall cfg procs fiber until tb fuel,
+  (forall t ph mt ro pid m g,
+     In (LProc t ph mt ro pid (AWake (WkChange m) g)) (res_log (simulate cfg procs fiber until tb fuel)) ->
+     changed (g_refs g) (g_cur g) /\ ph = AFTER) /\
+  (forall pid refs cur, In (LFire pid refs cur) (res_log (simulate cfg procs fiber until tb fuel)) -> changed refs cur).
+Proof. exact waitchange_only_on_change_proof. Qed.
+Print Assumptions waitchange_only_on_change.
+Example waits_nontrivial :
+  res_oof (simulate cfg_one procs_demo false 5 [] 5000) = false /\
+  count_entries (fun e => match e with LProc _ _ _ _ _ (AWake (WkFor _) _) => true | _ => false end) = 2%nat /\
+  count_entries (fun e => match e with LProc _ _ _ _ _ (AWake (WkChange _) _) => true | _ => false end) = 1%nat.
+Proof. destruct demo_nontrivial as (A & B & C & _). exact (conj A (conj B C)). Qed.
+
+(* ---------------------------------------------------------------- fibers: thread hand-off *)
+
+(* In every reachable state of the two-thread system (any interleaving, spurious wake-ups): simulator user code
+   and fiber user code never overlap; while the simulator runs m_threadRunning is false, while the fiber body
+   runs (before termination is requested) it is true. *)
+Theorem handoff_mutex : forall s, reachable s ->
+  (main_user s = true -> fiber_user s = true -> False) /\
+  (main_user s = true -> running s = false) /\
+  (fiber_user s = true -> term s = false -> running s = true) /\
+  (fiber_user s = true -> main_user s = false).
+Proof. exact handoff_mutex_proof. Qed.
+Print Assumptions handoff_mutex.
+
+(* The literal "at most one thread is outside a wait" holds up to what spurious wake-ups force: while the
+   simulator runs, the fiber thread is blocked, or re-checking its loop condition inside suspend() (holding the
+   mutex, touching only the two flags) -- and that state IS reachable. *)
+Theorem handoff_fiber_parked_while_simulator_runs :
+  (forall s, reachable s -> main_user s = true -> fiber_in_wait s = true \/ pf s = FLoop \/ pf s = FCheckTerm) /\
+  (exists s, reachable s /\ main_user s = true /\ pf s = FCheckTerm).
+Proof. exact (conj fiber_active_while_main_user_proof spurious_state_reachable). Qed.
+Print Assumptions handoff_fiber_parked_while_simulator_runs.
+
+(* no deadlock / no lost wake-up: every reachable state that is not the final one has a step that is not a
+   spurious wake-up *)
+Theorem handoff_progress : forall s, reachable s -> final s = true \/ exists s', In s' (step_nospurious s).
+Proof. exact handoff_progress_proof. Qed.
+Print Assumptions handoff_progress.
